@@ -1277,11 +1277,13 @@ def explore(
             nontriv = 0
             for label, ob in obligations:
                 stats["obligations"] += 1
-                obt = z3.simplify(_b(ob))
+                raw = _b(ob)
+                if not (z3.is_true(raw) or z3.is_false(raw)):
+                    nontriv += 1  # the obligation is a formula over solver variables (not a concrete bool)
+                obt = z3.simplify(raw)
                 if z3.is_true(obt):
                     stats["discharged"] += 1
                     continue
-                nontriv += 1
                 regions = known_regions(label, inp) if known_regions else []
                 neg = z3.Not(obt)
                 excl = [z3.Not(_b(r)) for _, r in regions]
